@@ -354,20 +354,25 @@ def local_callee_body(prog, call):
     return prog.body(p)
 
 
-def nodes_deep(prog, root, depth=2, _seen=None, crate=None):
+def nodes_deep(prog, root, depth=2, _seen=None, crate=None, values=False):
     """Like nodes(root) but also descends into the bodies of local functions that are called (helpers extracted by a
     refactoring are seen as if they were still inline).  crate: only descend into bodies of that crate (type indices
-    are per crate)."""
+    are per crate).  values: also descend into local functions that are named as values (`peek(word_end)`)."""
     if _seen is None:
         _seen = set()
     for n in nodes(root):
         yield n
+        b = None
         if depth > 0 and n.get("k") in ("Call", "MethodCall"):
             b = local_callee_body(prog, n)
-            if b is not None and b["p"] not in _seen and (crate is None or b["_crate"] is crate):
-                _seen.add(b["p"])
-                for x in nodes_deep(prog, b["body"], depth - 1, _seen, crate):
-                    yield x
+        elif depth > 0 and values and n.get("k") == "Path" and n["res"].get("k") == "Def" and n["res"].get("dk") in ("Fn", "AssocFn"):
+            p = n["res"].get("rp") or n["res"].get("p") or ""
+            if p.startswith("spl_frontend") or p.startswith("lsp4spl"):
+                b = prog.body(p)
+        if b is not None and b["p"] not in _seen and (crate is None or b["_crate"] is crate):
+            _seen.add(b["p"])
+            for x in nodes_deep(prog, b["body"], depth - 1, _seen, crate, values):
+                yield x
 
 
 _cm_cache = {}
